@@ -502,6 +502,118 @@ def _p_fresh(c):
     return None if ok else 'a grid lost its zero at n//2 after an earlier result was modified in place / after a shifted transform'
 
 
+@pred('autocrop')
+def _p_autocrop(c, want_out=False):
+    """psf.autocrop(data, px): a px-wide window whose origin sample px//2 is the centroid sample (window inside the array)"""
+    psf = _impl()[2]
+    m, n = c['shape']
+    p, q = c['pos']
+    px = c['px']
+    d = np.zeros((m, n))
+    d[p, q] = 2.0
+    if c.get('blob'):                      # symmetric 3x3 blob: same centroid, not a single sample
+        d[p - 1:p + 2, q - 1:q + 2] += 0.5
+    out, problem = _pure(psf.autocrop, d, px)
+    if want_out:
+        return out
+    if problem:
+        return problem
+    if out.shape != (px, px):
+        return f'window of shape {out.shape} for px = {px} (full width requested)'
+    if out[px // 2, px // 2] != d[p, q]:
+        return f'centroid sample {(p, q)} is not on the origin sample {(px // 2, px // 2)} of the window'
+    lo0, lo1 = p - px // 2, q - px // 2
+    if not np.array_equal(out, d[lo0:lo0 + px, lo1:lo1 + px]):
+        return 'window is not the block around the centroid sample'
+    return None
+
+
+@pred('estimate_size')
+def _p_estsize(c):
+    """fwhm / 1/e / 1/e^2 with dx only measure on the same coordinates as make_xy_grid(shape, dx, grid=False)"""
+    psf, co = _impl()[2], _impl()[1]
+    m, n = c['shape']
+    dx = c['dx']
+    x, y = co.make_xy_grid((m, n), dx=dx)
+    xv, yv = co.make_xy_grid((m, n), dx=dx, grid=False)
+    s = 0.18 * min(m, n) * dx
+    f = np.exp(-(x ** 2 + y ** 2) / (2 * s * s))
+    fn = {'fwhm': psf.fwhm, '1/e': psf.one_over_e, '1/e^2': psf.one_over_e_sq}[c['metric']]
+    a = fn(f, dx, criteria=c.get('criteria', 'last')) if c.get('call') == 'positional' else fn(f, dx=dx, criteria=c.get('criteria', 'last'))
+    b = fn(f, x=xv, y=yv, criteria=c.get('criteria', 'last'))
+    if not (abs(a - b) <= 1e-9 * max(abs(b), dx)):
+        return f'{c["metric"]} with dx only = {a}, on the make_xy_grid vectors = {b}'
+    return None
+
+
+@pred('richdata_derived')
+def _p_rich_derived(c):
+    """quantities RichData derives from x / y: r (zero exactly on the origin sample), support_x / _y, exact_x / exact_y / exact_xy
+    (values read AT coordinates: k dx from zero is k samples from the origin sample), also on a copy()"""
+    m, n = c['shape']
+    a, r = _rich(c)
+    dx = c['dx']
+    if c.get('history') == 'copy_after_read':
+        _ = r.x
+        r = r.copy()
+    elif c.get('history') == 'copy_before_read':
+        r = r.copy()
+    what = c['what']
+    if what == 'r':
+        rr = np.asarray(r.r)
+        if rr.shape != (m, n) or rr[m // 2, n // 2] != 0 or np.count_nonzero(rr == 0) != 1:
+            return 'r is not zero exactly on the origin sample'
+        t = np.asarray(r.t)
+        if dx > 0 and n // 2 + 1 < n and abs(t[m // 2, n // 2 + 1]) > 1e-12:
+            return 'azimuth of the sample next to the origin along +column is not that of the x axis'
+    elif what == 'support':
+        if abs(r.support_x - n * dx) > 1e-12 * abs(n * dx) or abs(r.support_y - m * dx) > 1e-12 * abs(m * dx):
+            return f'support_x, support_y = {r.support_x, r.support_y} for shape {(m, n)}, dx = {dx}'
+    elif what == 'exact':
+        for k in range(-(n // 2), n - n // 2):
+            if r.exact_x(k * dx) != a[m // 2, n // 2 + k]:
+                return f'exact_x({k} dx) = {r.exact_x(k * dx)}, the sample {k} columns from the origin sample holds {a[m // 2, n // 2 + k]}'
+        for k in range(-(m // 2), m - m // 2):
+            if r.exact_y(k * dx) != a[m // 2 + k, n // 2]:
+                return f'exact_y({k} dx) = {r.exact_y(k * dx)}, the sample {k} rows from the origin sample holds {a[m // 2 + k, n // 2]}'
+        ky, kx = c.get('at', [0, 0])
+        got = float(np.asarray(r.exact_xy(kx * dx, ky * dx)).ravel()[0])
+        if abs(got - a[m // 2 + ky, n // 2 + kx]) > 1e-9 * a[m // 2 + ky, n // 2 + kx]:
+            return f'exact_xy({kx} dx, {ky} dx) = {got}, the sample holds {a[m // 2 + ky, n // 2 + kx]}'
+    else:
+        raise KeyError(what)
+    return None
+
+
+def _zoom_arg(z, form):
+    if form == 'scalar':
+        return z[0]
+    return tuple(z) if form == 'tuple' else list(z)
+
+
+@pred('fourier_resample')
+def _p_resample(c, want_out=False):
+    """fourier_resample(f, zoom): axis k has int(shape[k] * zoom[k]) samples and a function centred on the origin sample stays
+    centred on the origin sample of the output"""
+    ft, co = _impl()[0], _impl()[1]
+    m, n = c['shape']
+    z = [float(Fraction(v)) for v in c['zoom']]
+    x, y = co.make_xy_grid((m, n), dx=1.0)
+    f = np.exp(-(x ** 2 + y ** 2) / (2 * (0.12 * min(m, n)) ** 2))
+    g, problem = _pure(ft.fourier_resample, f, _zoom_arg(z, c.get('form', 'tuple')))
+    if want_out:
+        return g
+    if problem:
+        return problem
+    M, N = int(m * z[0]), int(n * z[1])
+    if g.shape != (M, N):
+        return f'resampled shape {g.shape}, int(shape * zoom) = {(M, N)}'
+    pk = tuple(int(v) for v in np.unravel_index(np.argmax(g), g.shape))
+    if pk != (M // 2, N // 2):
+        return f'a function centred on the origin sample is resampled onto {pk}, the origin sample is {(M // 2, N // 2)}'
+    return None
+
+
 def _symmetric(M, o):
     m, n = M.shape
     k0, k1 = min(o[0], m - 1 - o[0]), min(o[1], n - 1 - o[1])
@@ -694,6 +806,7 @@ def correspondence(ctx):
             for (p, q) in itertools.product(range(m), range(n)):
                 cen_pts.append((m, n, p, q, dx))
                 lines.append(f'centroid {m} {n} {p} {q} {rat(dx)}')
+    lines += _session3_lines(ctx, pairs, ns, shapes, rat)
     lines = list(dict.fromkeys(lines))
     M = dict(zip(lines, C.lean_driver('C04', lines)))
 
@@ -884,6 +997,10 @@ def correspondence(ctx):
             out = [s, s] if v.get('outform') == 'int' else [max(1, m - n % 3), max(1, n - m % 4)]
             _run_pred(ctx, 'wavefront_crop', {'in': [m, n], 'out': out, **v}, nontrivial=m > 1 and n > 1, tag=f'inplace{v.get("inplace")}')
 
+
+    # ---------------- session 3: index maps, shifts, slices, vectors of the hand model executed against the real code
+    _session3(ctx, M, pairs, ns, shapes, rat)
+
     # ---------------- array centres computed elsewhere with another formula still land on n//2 (odd and even sizes)
     sites = origin_inventory(C.REPO)
     new = sorted({s_[:3] for s_ in sites} - set(REVIEWED_SITES))
@@ -896,6 +1013,154 @@ def correspondence(ctx):
     for (m, n) in itertools.product(range(1, ctx.scale(10, 18)), repeat=2):
         for what in ('psd', 'synth'):
             _run_pred(ctx, 'foreign_origin', {'what': what, 'shape': [m, n]}, nontrivial=m > 1 and n > 1, tag=f'{what}/par{m % 2}{n % 2}')
+
+
+def _session3_lines(ctx, pairs, ns, shapes, rat):
+    P = ctx.scale(24, 48)
+    lines = []
+    for (n, N) in pairs:
+        if N <= P:
+            lines += [f'padsrc {n} {N}', f'cropsrc {N} {n}']
+    for n in ns:
+        if n <= 130:
+            lines += [f'shifts {n}', f'fftfreq {n}']
+    for (m, n) in shapes:
+        dx = DXS[(m + n) % len(DXS)]
+        lines += [f'slices {m} {n} {rat(dx)}', f'support {m} {n} {rat(dx)}', f'dxdiam 3/1 {m} {n}']
+        lines += [f'vec {m} {n} {k} {rat(dx)}' for k in {0, min(m, n) // 2, min(m, n) - 1}]
+    for c in range(0, 14):
+        lines += [f'autocrop {c} {px}' for px in range(1, 9)]
+    for ln in range(1, ctx.scale(20, 40)):
+        lines += [f'resample {ln} {z}' for z in ('2/1', '3/2', '1/2', '5/4', '3/4')]
+    return lines
+
+
+def _session3(ctx, M, pairs, ns, shapes, rat):
+    ft, co, psf, pr, rd = _impl()
+    P = ctx.scale(24, 48)
+    # ---- 1-D index maps of pad / crop (Model.padSrc / cropSrc): where does every output sample come from?
+    for (n, N) in pairs:
+        if N > P:
+            continue
+        src = list(map(int, M[f'padsrc {n} {N}'].split()))
+        for axis in (0, 1):
+            a = np.arange(1, n + 1, dtype=float).reshape((n, 1) if axis == 0 else (1, n))
+            case = {'in': list(a.shape), 'out': [N, 1] if axis == 0 else [1, N], 'axis': axis}
+            ctx.case('pad_index_map', case, nontrivial=n != N, tag=f'par{n % 2}{N % 2}')
+            try:
+                out = ft.pad2d(a, out_shape=tuple(case['out'])).ravel()
+                got = [int(v) - 1 for v in out]
+            except Exception as ex:
+                got = f'raised {type(ex).__name__}: {ex}'
+            if got != src:
+                ctx.disagree('pad_index_map', case, got if isinstance(got, str) else got[:8], src[:8])
+        csrc = list(map(int, M[f'cropsrc {N} {n}'].split()))
+        for axis in (0, 1):
+            a = np.arange(N, dtype=float).reshape((N, 1) if axis == 0 else (1, N))
+            case = {'in': list(a.shape), 'out': [n, 1] if axis == 0 else [1, n], 'axis': axis}
+            ctx.case('crop_index_map', case, nontrivial=n != N, tag=f'par{N % 2}{n % 2}')
+            try:
+                got = [int(v) for v in ft.crop_center(a, tuple(case['out'])).ravel()]
+            except Exception as ex:
+                got = f'raised {type(ex).__name__}: {ex}'
+            if got != csrc:
+                ctx.disagree('crop_index_map', case, got if isinstance(got, str) else got[:8], csrc[:8])
+    # ---- NumPy's fftshift / ifftshift / fftfreq against Model.rollSrc / npFftshiftBy / npIfftshiftBy / fftfreqOf
+    for n in ns:
+        if n > 130:
+            continue
+        sh = list(map(int, M[f'shifts {n}'].split()))
+        ctx.case('np_shifts', {'n': n}, nontrivial=n > 1, tag=f'par{n % 2}')
+        got = [int(v) for v in np.fft.fftshift(np.arange(n))] + [int(v) for v in np.fft.ifftshift(np.arange(n))]
+        if got != sh:
+            ctx.disagree('np_shifts', {'n': n}, got[:8], sh[:8])
+        fq = list(map(int, M[f'fftfreq {n}'].split()))
+        gotf = [int(round(v)) for v in np.fft.fftfreq(n) * n]
+        if gotf != fq:
+            ctx.disagree('np_fftfreq', {'n': n}, gotf[:8], fq[:8])
+    # ---- Slices: centre indices and the four cuts of the model (argmin over exact rationals) against the real object
+    for (m, n) in shapes:
+        dx = DXS[(m + n) % len(DXS)]
+        parts = [p_.split() for p_ in M[f'slices {m} {n} {rat(dx)}'].split('|')]
+        cy, cx = map(int, parts[0])
+        want = [list(map(int, p_)) for p_ in parts[1:5]]
+        zero = [float(Fraction(v)) for v in parts[5]]
+        case = {'shape': [m, n], 'dx': dx}
+        ctx.case('slices_model', case, nontrivial=m > 1 and n > 1, tag=f'par{m % 2}{n % 2}')
+        try:
+            a = _marked((m, n))
+            r = rd.RichData(a, dx, 1.0)
+            s2, s1 = r.slices(twosided=True), r.slices(twosided=False)
+            got = [[int(v) for v in s2.x[1]], [int(v) for v in s2.y[1]], [int(v) for v in s1.x[1]], [int(v) for v in s1.y[1]]]
+            gc = (int(s2.center_y), int(s2.center_x))
+            gz = [float(s1.x[0][0]), float(s1.y[0][0])]
+        except Exception as ex:
+            ctx.disagree('slices_model', case, f'raised {type(ex).__name__}: {ex}', [cy, cx])
+            continue
+        if gc != (cy, cx) or got != want or gz != zero:
+            ctx.disagree('slices_model', case, [gc, got[2][:3], gz], [(cy, cx), want[2][:3], zero])
+        sx, sy = (float(Fraction(v)) for v in M[f'support {m} {n} {rat(dx)}'].split())
+        ctx.case('support', case, nontrivial=m != n)
+        if abs(r.support_x - sx) > 1e-12 * abs(sx) or abs(r.support_y - sy) > 1e-12 * abs(sy):
+            ctx.disagree('support', case, [r.support_x, r.support_y], [sx, sy])
+        md = float(Fraction(M[f'dxdiam 3/1 {m} {n}']))
+        xv, yv = co.make_xy_grid((m, n), diameter=3.0, grid=False)
+        ctx.case('diameter_dx', {'shape': [m, n]}, nontrivial=m != n)
+        obs = [float(xv[k + 1] - xv[k]) for k in range(min(1, n - 1))] + [float(yv[k + 1] - yv[k]) for k in range(min(1, m - 1))]
+        if any(abs(o - md) > 1e-12 * md for o in obs):
+            ctx.disagree('diameter_dx', {'shape': [m, n]}, obs, md)
+        xv, yv = co.make_xy_grid((m, n), dx=dx, grid=False)
+        for k in {0, min(m, n) // 2, min(m, n) - 1}:
+            vx, vy = (float(Fraction(v)) for v in M[f'vec {m} {n} {k} {rat(dx)}'].split())
+            ctx.case('vec_sample', {'shape': [m, n], 'dx': dx, 'k': k}, nontrivial=m != n)
+            tol = 4 * np.finfo(xv.dtype).eps
+            if abs(float(xv[k]) - vx) > tol * abs(vx) or abs(float(yv[k]) - vy) > tol * abs(vy):
+                ctx.disagree('vec_sample', {'shape': [m, n], 'dx': dx, 'k': k}, [float(xv[k]), float(yv[k])], [vx, vy])
+        for what in ('r', 'support', 'exact'):
+            for hist in ('fresh', 'copy_after_read', 'copy_before_read'):
+                if what == 'exact' and (m < 2 or n < 2):
+                    continue
+                _run_pred(ctx, 'richdata_derived', {'shape': [m, n], 'dx': dx, 'what': what, 'history': hist,
+                                                    'at': [(m - 1) - m // 2, -(n // 2)]}, nontrivial=m > 1 and n > 1, tag=f'{what}/{hist}')
+    # ---- autocrop: window bounds of the model against where the real window lies, every centroid position / width that fits
+    for (m, n) in ((9, 12), (12, 9), (10, 10), (11, 13)) + (((16, 17), (21, 20)) if ctx.thorough else ()):
+        for t, (p, q) in enumerate(itertools.product(range(m), range(n))):
+            for px in range(1, 9):
+                if p - px // 2 < 0 or q - px // 2 < 0 or p - px // 2 + px > m or q - px // 2 + px > n:
+                    continue                      # window would leave the array: outside the domain
+                blob = (t + px) % 3 == 0 and 1 <= p < m - 1 and 1 <= q < n - 1
+                case = {'shape': [m, n], 'pos': [p, q], 'px': px, **({'blob': True} if blob else {})}
+                ok = _run_pred(ctx, 'autocrop', case, nontrivial=px > 1, tag=f'px{px % 2}/{"blob" if blob else "point"}')
+                lo0, hi0 = map(int, M[f'autocrop {p} {px}'].split())
+                lo1, hi1 = map(int, M[f'autocrop {q} {px}'].split())
+                try:
+                    out = _p_autocrop(case, want_out=True)
+                    w = np.argwhere(out == out.max()) if out.size else []
+                    got = [out.shape[0], out.shape[1]] + ([p - int(w[0][0]), q - int(w[0][1])] if len(w) == 1 else [None, None])
+                except Exception as ex:
+                    got = f'raised {type(ex).__name__}: {ex}'
+                if got != [hi0 - lo0, hi1 - lo1, lo0, lo1]:
+                    ctx.disagree('autocrop', case, got, [hi0 - lo0, hi1 - lo1, lo0, lo1])
+    # ---- estimate_size (fwhm, 1/e, 1/e^2) on its own dx-only coordinates vs the make_xy_grid vectors
+    for (m, n) in itertools.product(range(16, ctx.scale(24, 34)), repeat=2):
+        if (m + n) % 2 and not ctx.thorough and m > 20:
+            continue
+        k = (m * 3 + n) % 6
+        case = {'shape': [m, n], 'dx': abs(DXS[(m + n) % len(DXS)]), 'metric': ('fwhm', '1/e', '1/e^2')[k % 3],
+                'criteria': ('last', 'first')[(m + n) % 5 == 0], **({'call': 'positional'} if k >= 3 else {})}
+        _run_pred(ctx, 'estimate_size', case, nontrivial=True, tag=f'{case["metric"]}/par{m % 2}{n % 2}')
+    # ---- fourier_resample: output lengths against the model, origin stays on the origin sample
+    zs = [(('2', '2'), 'scalar'), (('3/2', '3/2'), 'scalar'), (('1/2', '1/2'), 'scalar'), (('2', '3/2'), 'tuple'), (('5/4', '3/4'), 'list'),
+          (('3/4', '2'), 'tuple')]
+    for (m, n) in itertools.product(range(8, ctx.scale(20, 40)), repeat=2):
+        zoom, form = zs[(m + 2 * n) % len(zs)]
+        case = {'shape': [m, n], 'zoom': list(zoom), 'form': form}
+        if _run_pred(ctx, 'fourier_resample', case, nontrivial=True, tag=f'{form}/par{m % 2}{n % 2}'):
+            g = _p_resample(case, want_out=True)
+            zr = [rat(Fraction(v)) for v in zoom]
+            want = [int(M[f'resample {m} {zr[0]}']), int(M[f'resample {n} {zr[1]}'])]
+            if list(g.shape) != want:
+                ctx.disagree('fourier_resample', case, list(g.shape), want)
 
 
 def _np_pad_ok(shp, out_shape, mode):
@@ -1029,6 +1294,18 @@ def search(ctx, hints):
                  ('wavefront_pad', {'in': [m, n], 'Q': 2}), ('wavefront_pad', {'in': [m, n], 'Q': 1, 'out': [m + 1, n + 2], 'inplace': False}),
                  ('wavefront_crop', {'in': [m, n], 'out': [max(1, m - 1), max(1, n - 2)]}),
                  ('foreign_origin', {'what': 'psd', 'shape': [m, n]}), ('foreign_origin', {'what': 'synth', 'shape': [m, n]})]
+        for item, case in cases:
+            d = _try(item, case)
+            if d:
+                return hit(item, case, d)
+    for (m, n) in ((7, 8), (8, 7), (9, 9)):
+        cases = [('autocrop', {'shape': [m, n], 'pos': [m // 2, n // 2], 'px': px}) for px in range(1, 6)] + \
+                [('autocrop', {'shape': [m, n], 'pos': [3, 4], 'px': 3}), ('autocrop', {'shape': [m, n], 'pos': [4, 3], 'px': 4})] + \
+                [('richdata_derived', {'shape': [m, n], 'dx': 0.5, 'what': w, 'history': h, 'at': [1, -1]})
+                 for w in ('r', 'support', 'exact') for h in ('fresh', 'copy_after_read')] + \
+                [('fourier_resample', {'shape': [m + 4, n + 4], 'zoom': list(z), 'form': f})
+                 for z, f in ((('2', '2'), 'scalar'), (('3/2', '3/2'), 'scalar'), (('2', '3/2'), 'tuple'), (('3/4', '5/4'), 'list'))] + \
+                [('estimate_size', {'shape': [m + 12, n + 12], 'dx': 0.5, 'metric': k}) for k in ('fwhm', '1/e', '1/e^2')]
         for item, case in cases:
             d = _try(item, case)
             if d:
